@@ -232,6 +232,23 @@ class Ctx:
                     pass
         return out
 
+    def main_view(self):
+        """`main` with the binary crate's own thin helpers inlined (reading the diff, printing the
+        list, ...), so that rules about main's order of steps do not depend on how main is split up.
+        The report function (the one that calls process::exit) and the repository-root search stay
+        calls: rules anchor on them."""
+        main = self.facts.bodies.get("bwbin::main")
+        if main is None:
+            return None
+
+        def keep(cb):
+            if not cb.id.startswith("bwbin::"):
+                return True
+            if cb.id == "bwbin::repository_root_path":
+                return True
+            return any(factsmod.callee_matches(t, r"^std::process::(exit|abort)$") for _, t in cb.calls())
+        return self.inl(main, skip=keep, tag="main")
+
     def validate_body(self, name, inline=False, skip=None, tag=None, sugar=False):
         """The validator's `validate` body; with inline=True its crate-local helpers are virtually
         inlined, so that rules see the same code whether or not a step was extracted into a function."""
